@@ -676,6 +676,29 @@ pub fn run(opts: &Opts) -> Run {
             cx.run.case(format!("huf build {}", hex(&src)), ans);
         }
     }
+    // FSE-compressed descriptions at the edges of what the format allows, cut out of valid frames (corpus/dec/hufweights_*:
+    // accuracy log 6 = the maximum; distributions that also give probability to weight symbols that never occur, 14 and
+    // 42 symbols): the reference decoder and the RFC Spec accept them, so must `build_decoder`
+    if let Ok(rd) = std::fs::read_dir("corpus/dec") {
+        let mut files: Vec<_> = rd.filter_map(|e| e.ok()).map(|e| e.path()).filter(|p| p.file_name().map(|n| n.to_string_lossy().starts_with("hufweights_")).unwrap_or(false)).collect();
+        files.sort();
+        for f in files {
+            if let Ok(b) = std::fs::read(&f) {
+                // frame header 6 bytes (single segment, 1-byte content size), block header 3, literals header 3
+                if b.len() > 13 && (b[12] as usize) < 128 && b.len() >= 13 + b[12] as usize {
+                    let desc = b[12..13 + b[12] as usize].to_vec();
+                    let mut t = DecTable::new();
+                    let ans = build_answer(&mut t, &desc);
+                    cx.run.oracle_checks += 1;
+                    if !ans.starts_with("ok") {
+                        cx.run.fail("C13", "valid_fse_description_rejected", format!("the weight description of {} (accepted by the reference decoder and the RFC Spec) answered `{}`", f.display(), &ans[..ans.len().min(60)]), format!("huf build {}", hex(&desc)));
+                    }
+                    cx.run.stat("corpus_fse_descriptions", 1);
+                    cx.run.case(format!("huf build {}", hex(&desc)), ans);
+                }
+            }
+        }
+    }
     // longer direct descriptions: valid by construction, then broken
     for _ in 0..(if cx.thorough { 20000 } else { 1500 }) {
         let k = cx.rng.range(1, 128) as usize;
